@@ -290,8 +290,11 @@ func (fs *FS) Rename(oldname, newname string) error {
 	// the destination must not be a directory (nor anything at all when a directory is moved), must not lie inside
 	// the directory being moved, and its parent must be an existing directory
 	if newFile, err := fs.getFile(newname); err == nil {
-		if oldInfo.IsDir() || newFile.Mode().IsDir() {
+		switch {
+		case newFile.Mode().IsDir():
 			return linkErr(hackpadfs.ErrExist)
+		case oldInfo.IsDir():
+			return linkErr(hackpadfs.ErrNotDir) // a directory cannot replace a regular file
 		}
 	} else if !errors.Is(err, hackpadfs.ErrNotExist) {
 		return linkErr(err)
